@@ -3,6 +3,7 @@
 mod ck;
 mod e2;
 mod lockeng;
+mod ri;
 mod util;
 mod wal;
 
@@ -19,6 +20,7 @@ fn main() {
     let mut wal_engine: Option<wal::WalEngine> = None;
     let mut e2_engine: Option<e2::E2> = None;
     let mut lk_engine: Option<lockeng::Lk> = None;
+    let mut ri_engine: Option<ri::Ri> = None;
     std::panic::set_hook(Box::new(|_| {}));
     for line in stdin.lock().lines() {
         let line = line.unwrap();
@@ -29,6 +31,7 @@ fn main() {
         let res = std::panic::catch_unwind(std::panic::AssertUnwindSafe(|| match toks[0] {
             "wal" => wal_engine.get_or_insert_with(wal::WalEngine::new).cmd(&toks[1..]),
             "ck" => ck::cmd(&toks[1..]),
+            "ri" => ri_engine.get_or_insert_with(ri::Ri::new).cmd(&toks[1..]),
             "e2" => {
                 if toks.len() > 2 && toks[1] == "newat" {
                     e2_engine = None;
